@@ -110,7 +110,30 @@ Definition frag1 (fb : flat) : bool :=
   && all_active fb && all_basic fb && unit_weights fb && plain_geometry fb && size_matches1 fb
   && free_levels_nonempty fb && ((0 <? fl_trials fb) || no_rejecting_constraints fb).
 
-(** the part of F1 in which no candidate is ever rejected *)
+(** * F2: F1 widened by weights - weighted levels of the crossed factors and a
+    crossing weight.  A round is then a permutation of the multiset in which
+    every admitted combination occurs (weight of the combination) x (crossing
+    weight) times ([crossing_is_unweighted = false]: the memoised counter /
+    unranker for permutations with copies); [fl_sizes] is the sum of the
+    combination weights. *)
+Definition level_weight_nat (fb : flat) (f l : nat) : nat :=
+  match nth_error (levels_of fb f) l with Some lv => lv_weight lv | None => 1 end.
+Definition combo_weight (fb : flat) (di : asg) : nat :=
+  fold_right (fun p acc => level_weight_nat fb (fst p) (snd p) * acc) 1 di.
+Definition weights_ok (fb : flat) : bool :=
+  match fl_weights fb with [w] => 0 <? w | _ => false end.
+Definition size_matches2 (fb : flat) : bool :=
+  match fl_crossings fb, fl_sizes fb with
+  | [c], [s] => (s =? list_sum (map (fun ls => combo_weight fb (combine c ls)) (allowed_combos fb c))) && (0 <? s)
+  | _, _ => false
+  end.
+
+Definition frag2 (fb : flat) : bool :=
+  single_plain_crossing fb && forallb (constraint_f1 fb) (fl_constraints fb) && exclude_consistent fb
+  && all_active fb && all_basic fb && weights_ok fb && plain_geometry fb && size_matches2 fb
+  && free_levels_nonempty fb && ((0 <? fl_trials fb) || no_rejecting_constraints fb).
+
+(** the part of F1 / F2 in which no candidate is ever rejected *)
 Definition rejection_free (fb : flat) : bool :=
   forallb (fun k => match k with
                     | FCross | FConsistency | FMinimumTrials _ | FDerivation _ _ _ | FExclude _ _ => true
